@@ -386,3 +386,23 @@ def interestSigSetup (sc : Option SigCfg) (est : Nat) (needDigest : Bool) : Res 
       .ok (some si, est)
 
 end Ndn.C03
+
+namespace Ndn.C03
+
+/-- `InterestEncoder.wirePlan` as computed by Init (announced buffer sizes; 0 = a buffer that is not
+    allocated: the caller's parameter buffers and the signature slot) for the final name `fn` -/
+def interestPlan (i : InterestIn) (fn : Name) : List Nat :=
+  let head := interestHeadLen i fn
+  let tail := optN i.si (fun s => 1 + tlLen (sigInfoLen s) + sigInfoLen s) + (if i.est > 0 then 1 + tlLen i.est else 0)
+  match i.ap with
+  | none => if i.est > 0 then [head + tail, 0] else [head + tail]
+  | some c =>
+    [head + (1 + tlLen (contentLen c))] ++ c.map (fun _ => 0) ++
+      (if i.est > 0 then [tail, 0] else if tail = 0 then [] else [tail])
+
+/-- "the wire plan equals what EncodeInto writes": same number of buffers, and every ALLOCATED
+    buffer (plan entry > 0) has exactly the announced size -/
+def PlanMatches (plan : List Nat) (segs : List Bytes) : Prop :=
+  plan.length = segs.length ∧ ∀ k, k < plan.length → plan.getD k 0 ≠ 0 → plan.getD k 0 = (segs.getD k []).length
+
+end Ndn.C03
